@@ -139,6 +139,8 @@ def run_session(case):
     if w.harness_errors:
         obs["harness_exception"] = "; ".join(w.harness_errors[:3])
     obs["threads_alive"] = sum(1 for th in w.threads if th.is_alive())
+    if any(w.transfers[k].runaway for k in w.transfers):
+        obs["runaway"] = True
     obs["script_left"] = [len(w.transfers[k].script) for k in sorted(w.transfers)]
     return obs
 
